@@ -135,3 +135,12 @@ Theorem seqset_membership : forall mx s n,
   (n <= mx)%N -> (set_has mx s n = true <-> denotes mx s n).
 Proof. exact set_has_denotes. Qed.
 Print Assumptions seqset_membership.
+
+(* SearchKey.requirement asks for enough: a backend that loads the message
+   content only when the reduced requirement of the command contains HEADER or
+   BODY (maildir) returns what a backend that always loads it (dict) returns. *)
+Theorem requirement_sufficient : forall always dis choice uid prog v,
+  search_backend always dis choice uid (map compile prog) v =
+  search_model dis choice uid (map compile prog) v.
+Proof. exact search_backend_irrelevant. Qed.
+Print Assumptions requirement_sufficient.
